@@ -341,7 +341,7 @@ Section C01.
       destruct e; try (split; assumption).
       destruct (x_sent x1); [split; assumption|].
       destruct (x_cancelled x1).
-      - split; [|exact I]. destruct H1 as (Hs & Hq & Hf & Hl). mkinv. apply set_online_qok. apply set_online_qok. exact Hq.
+      - split; [|exact I]. destruct H1 as (Hs & Hq & Hf & Hl). mkinv. try apply set_online_qok. try apply set_online_qok. exact Hq.
       - destruct (retry_call below (go_online responder dnsfb x1)) as [x2 o2] eqn:E2.
         destruct (retry_call_inv _ _ _ (go_online_inv _ H1) E2) as [Hi Hr]. split; [exact Hi|]. simpl.
         destruct (load_call_last _ _ _ _ _ E1) as (a & Ha & Hc).
